@@ -931,6 +931,75 @@ func runC16(c *mon.Ctx) {
 	c16BothLists(c, ds)
 	c16SharedCache(c, ds)
 	c16ClientSequences(c)
+	c16ClientDelegationHistory(c, st, ds)
+}
+
+// c16ClientDelegationHistory: a.hist.test delegates (well-known) to the name b.hist.test, which is served through its SRV
+// record by server B. b.hist.test is also a server name of its own whose well-known file delegates to server C. ONE
+// resolving client is asked for the two names in every order: a request for a name goes where that name resolves to -
+// the delegated name of somebody else's well-known file is "resolved without a further well-known lookup", the name
+// itself is not.
+func c16ClientDelegationHistory(c *mon.Ctx, st *scriptedTransport, ds *dnsScript) {
+	if c.Shard != 0 {
+		return
+	}
+	type hit struct{ server, host string }
+	var mu sync.Mutex
+	var hits []hit
+	mk := func(label string) *httptest.Server {
+		srv := httptest.NewUnstartedServer(http.HandlerFunc(func(w http.ResponseWriter, q *http.Request) {
+			mu.Lock()
+			hits = append(hits, hit{label, q.Host})
+			mu.Unlock()
+			w.Header().Set("Content-Type", "application/json")
+			_, _ = w.Write([]byte(`{"server":{"name":"` + label + `","version":"1"}}`))
+		}))
+		srv.Config.ErrorLog = log.New(io.Discard, "", 0)
+		srv.StartTLS()
+		return srv
+	}
+	srvB, srvC := mk("B"), mk("C")
+	defer srvB.Close()
+	defer srvC.Close()
+	_, portB, _ := net.SplitHostPort(srvB.Listener.Addr().String())
+	pB, _ := strconv.Atoi(portB)
+	addrC := srvC.Listener.Addr().String()
+	ds.mu.Lock()
+	ds.srv["b.hist.test"] = srvScript{fed: []dns.SRV{mkSRV("srv-b.hist.test", uint16(pB))}}
+	ds.a["srv-b.hist.test"] = []string{"127.0.0.1"}
+	ds.mu.Unlock()
+	st.mu.Lock()
+	st.wk["a.hist.test"] = wkReply{status: 200, body: []byte(`{"m.server":"b.hist.test"}`), contentLength: true}
+	st.wk["b.hist.test"] = wkReply{status: 200, body: []byte(`{"m.server":"` + addrC + `"}`), contentLength: true}
+	st.mu.Unlock()
+	want := map[string]hit{"a.hist.test": {"B", "b.hist.test"}, "b.hist.test": {"C", addrC}}
+	for _, seq := range [][]string{{"a.hist.test"}, {"b.hist.test"}, {"a.hist.test", "b.hist.test"}, {"b.hist.test", "a.hist.test"}, {"a.hist.test", "b.hist.test", "a.hist.test", "b.hist.test"}, {"a.hist.test", "a.hist.test", "b.hist.test"}} {
+		c.Case("client:delegation-history", map[string]any{"sequence": seq}, func() {
+			c.Nontrivial(fmt.Sprintf("client-delegation|%v", seq))
+			cl := fclient.NewClient(fclient.WithSkipVerify(true), fclient.WithWellKnownSRVLookups(true), fclient.WithTimeout(5*time.Second))
+			for step, name := range seq {
+				mu.Lock()
+				hits = nil
+				mu.Unlock()
+				ctx, cancel := context.WithTimeout(context.Background(), 5*time.Second)
+				_, err := cl.GetVersion(ctx, spec.ServerName(name))
+				cancel()
+				mu.Lock()
+				got := append([]hit{}, hits...)
+				mu.Unlock()
+				c.Count("client_delegation_history_requests")
+				if err != nil || len(got) != 1 {
+					c.Failf("client-delegation-history:request-not-delivered", "step %d of %v: the request for %s gave err=%v and reached %v", step, seq, name, err, got)
+					return
+				}
+				if got[0] != want[name] {
+					c.Failf("client-delegation-history:wrong-target", "step %d of %v: the request for %s reached server %s with Host %q; that name resolves to server %s with Host %q", step, seq, name, got[0].server, got[0].host, want[name].server, want[name].host)
+					return
+				}
+			}
+		})
+	}
+	c.Floor("client_delegation_history_requests", 10)
 }
 
 // c16ClientSequences sends requests for several server names that share a host through ONE client that resolves and
@@ -1045,6 +1114,41 @@ func c16ClientSequences(c *mon.Ctx) {
 				}
 				if got[0].sni != "localhost" {
 					c.Failf("client-lookups-off:wrong-tls-server-name", "request for %s asked for the TLS server name %q, the host is localhost", name, got[0].sni)
+				}
+			})
+		}
+	}
+	// a client without lookups given a request somebody else built (DoHTTPRequest; FederationRequest.HTTPRequest makes
+	// such requests): a host that is no server name is refused there as well, not dialled as whatever net/url makes of it
+	if c.Shard == 0 {
+		_, portStr, _ := net.SplitHostPort(names[0])
+		cl := fclient.NewClient(fclient.WithSkipVerify(true), fclient.WithTimeout(5*time.Second))
+		for _, host := range []string{"[127.0.0.1]:" + portStr, "[localhost]:" + portStr, "[127.0.0.1" + "]"} {
+			if v, _, _ := ref.ServerName(host); v == ref.Valid {
+				panic("harness: " + host + " is a valid server name")
+			}
+			c.Case("client:lookups-off:invalid-host-in-a-built-request", map[string]any{"host": host}, func() {
+				c.Nontrivial("client-lookups-off-invalid|" + host)
+				req, err := http.NewRequest("GET", "matrix://"+host+"/_matrix/federation/v1/version", nil)
+				if err != nil {
+					c.Count("client_built_request_not_constructible")
+					return
+				}
+				mu.Lock()
+				hits = nil
+				mu.Unlock()
+				ctx, cancel := context.WithTimeout(context.Background(), 5*time.Second)
+				resp, err := cl.DoHTTPRequest(ctx, req)
+				if resp != nil {
+					resp.Body.Close()
+				}
+				cancel()
+				mu.Lock()
+				got := append([]hit{}, hits...)
+				mu.Unlock()
+				c.Count("client_invalid_name_requests")
+				if len(got) > 0 {
+					c.Failf("client:invalid-name-not-refused:lookups-off:DoHTTPRequest", "a request built for the host %q (no server name) and handed to a client without lookups (err=%v) was sent to %s (Host %q)", host, err, names[0], got[0].host)
 				}
 			})
 		}
